@@ -12,6 +12,18 @@ CLAIMS = {
         "replies::append = (non-empty and all positive, members in order, texts joined by CR LF). Correspondence: all 65536 codes and all "
         "short sequences exhaustively, random long ones, real reply/replies classes vs. the Lean model; monitor = the reference spec.",
    note="Pure value classes; nothing modelled away except std::string/std::vector.", ref="DESIGN.md section 7 C15"),
+ "C16": dict(
+   text="Theorems for every reply (code, text): the size parser equals the reference 'decimal number below 2^64 after the first four "
+        "characters' (value never wrapped/truncated/prefix), the time parser equals the reference 'RFC 3659 time-val with a 32-bit "
+        "fraction, fields as written' (sound + complete), listing lines = LF pieces minus one CR, round trip and LF-freeness by induction. "
+        "Correspondence: real typed-reply classes vs. model on exhaustive small alphabets, limit-straddling digit strings, all single edits "
+        "of well-formed time-vals.",
+   note="'never throws' is observed on the implementation only (harness classifies escaping exceptions).", ref="DESIGN.md section 7 C16"),
+ "C09": dict(
+   text="Theorems for all byte strings: make_command yields exactly verb SP text (one CR LF on the wire, at the end) when the text has no "
+        "CR/LF and refuses any text containing CR or LF. Correspondence: real client::make_command on exhaustive small alphabets, injection "
+        "strings and random byte strings (client-level wire check to be added with the client harness).",
+   note="This registered part covers the command-building step; the per-call wire-level check is added by the client-level stage.", ref="DESIGN.md section 7 C09"),
 }
 PENDING = "check not built yet (work in progress; see DESIGN.md section 12)"
 
